@@ -239,7 +239,8 @@ def _fan_points(case):
         fans.append(('left', sp[0], sp[1]))
     if pat[-1] == 'R':
         fans.append(('right', sp[-2], sp[-1]))
-    fans = [fn for fn in fans if fn[0] == case['which']] or fans
+    if 'num_x_pts' not in case['params']:      # (the general-EOS obligation has few cases: it looks at both fans of an RCR solution)
+        fans = [fn for fn in fans if fn[0] == case['which']] or fans
     out = []
     for name, v0, v1 in fans:
         if abs(v1 - v0) < 1e-6 * (abs(v0) + abs(v1) + 1e-30):
@@ -380,7 +381,7 @@ OBLIGATIONS = [
     Obligation('noh2-pde', cat.noh2_case(n_min=1, n_max=4), check_noh2, quick=300, thorough=10000),
     Obligation('ehep-pde', ehep_case(), check_ehep, quick=300, thorough=10000),
     Obligation('igeos-fan-pde', fan_case('ig'), check_fan, quick=300, thorough=10000),
-    Obligation('geneos-fan-pde', fan_case('gen'), check_fan, quick=16, thorough=200, min_per_shard=1, expected_exc=(ValueError,)),
+    Obligation('geneos-fan-pde', fan_case('gen'), check_fan, quick=48, thorough=600, min_per_shard=1, expected_exc=(ValueError,)),
     Obligation('sedov-pde', sedov_case(), check_sedov, quick=16, thorough=300, min_per_shard=1),
     Obligation('guderley-pde', guderley_case(), check_guderley, quick=8, thorough=32, min_per_shard=1),
     Obligation('guderley-pde-lazarus-time', guderley_case(), check_guderley_lazarus, quick=12, thorough=48, min_per_shard=1),
